@@ -6,6 +6,7 @@ import (
 
 	"github.com/trustbloc/sidetree-core-go/pkg/api/operation"
 	"github.com/trustbloc/sidetree-core-go/pkg/api/protocol"
+	"github.com/trustbloc/sidetree-core-go/pkg/versions/1_0/operationparser"
 
 	"verifharness/hx"
 	"verifharness/ref"
@@ -14,7 +15,7 @@ import (
 func init() { register("C12", "exploration", checkC12) }
 
 func checkC12(c *hx.Ctx) {
-	c.Rule("(a) intake: update and recover requests for every pairing of revealed key K_i and next commitment c_h(K_j) (4 keys x 4 keys x reveal hash {sha2-256, sha2-512} x commitment hash {sha2-256, sha2-512} x protocols allowing [256], [512], [256,512], [512,256]) and creates/recovers with equal/unequal update and recovery commitments - exhaustive; keys carrying nonces: the same key material seen under one nonce, then revealed and re-committed under another nonce in the same process; accepted iff the next commitment is not a commitment of the revealed key (under any enabled algorithm) and update != recovery commitment; every request intake must refuse is also handed to the batch writer's REAL operation handler (the last gate before anchoring), which must not write batch files for it; (b) resolution: commitment cycles of length 1-5 (every rotation, every anchoring order of up to 5 operations, for the update and the recovery chain) (also with a legitimate later competitor of the cycle-closing operation, with a protocol upgrade in the middle of the chain, and recovery cycles built from / closed by recovers that carry no delta) under the online trace checker T3 (no commitment consumed twice, no successor already consumed) with step budget, compared with the reference model; non-trivial = pairing i==j or a history containing a full cycle")
+	c.Rule("(a) intake: update and recover requests for every pairing of revealed key K_i and next commitment c_h(K_j) (4 keys x 4 keys x reveal hash {sha2-256, sha2-512} x commitment hash {sha2-256, sha2-512} x protocols allowing [256], [512], [256,512], [512,256]) and creates/recovers with equal/unequal update and recovery commitments - exhaustive; keys carrying nonces: the same key material seen under one nonce, then revealed and re-committed under another nonce in the same process; accepted iff the next commitment is not a commitment of the revealed key (under any enabled algorithm) and update != recovery commitment; every request intake must refuse is also handed to the batch writer's REAL operation handler (the last gate before anchoring), which must not write batch files for it; the same requests with an anchoring window that has not opened yet (parser with a server-time validator) stay refused; (b) resolution: commitment cycles of length 1-5 (every rotation, every anchoring order of up to 5 operations, for the update and the recovery chain) (also with a legitimate later competitor of the cycle-closing operation, with a protocol upgrade in the middle of the chain, and recovery cycles built from / closed by recovers that carry no delta) under the online trace checker T3 (no commitment consumed twice, no successor already consumed) with step budget, compared with the reference model; cycles resolved on ONE processor that serves other resolutions at the same time (nested before every operation application, and from goroutines); non-trivial = pairing i==j or a history containing a full cycle")
 	c.Set("exhaustive", true)
 	rng := c.Rng("keys")
 	typeSets := [][]string{{"P-256", "Ed25519", "secp256k1", "P-384"}}
@@ -81,6 +82,20 @@ func checkC12(c *hx.Ctx) {
 			}
 			if mustReject {
 				// the last gate before anchoring: the batch writer's operation handler refuses to write batch files for it
+				// the same request declaring an anchoring window that has not opened yet, judged by a parser with a server-time
+				// validator: refused whatever the reason given
+				vEarly := hx.NewVersion(p, hx.VersionOpts{ParserOpts: []operationparser.Option{operationparser.WithAnchorTimeValidator(&virtualClock{now: 100})}})
+				var early *ref.Op
+				if j.op == "update" {
+					early = u.MkSigned("upd-early", "update", keys[j.i], "", next, k2, SignedOpts{From: 1000})
+				} else {
+					early = u.MkSigned("rec-early", "recover", keys[j.i], next, other.Commitment(j.hNext), k2, SignedOpts{From: 1000})
+				}
+				if _, eerr := vEarly.Parser.Parse(hx.Namespace, early.Request); eerr == nil {
+					c.Violation("C12 intake accepted a request that re-commits to the key it reveals when its anchoring window has not opened yet: "+desc, map[string]interface{}{"request": string(early.Request), "protocol": p})
+					return
+				}
+				c.Count("self_commit_with_window_not_yet_open_rejected")
 				if !writerGateRefuses(p, j.op, u.Suffix, op.Request) {
 					c.Violation("C12 the batch writer's operation handler wrote batch files for a request that re-commits to the key it reveals: "+desc, map[string]interface{}{"request": string(op.Request), "protocol": p})
 					return
@@ -410,6 +425,8 @@ func checkC12(c *hx.Ctx) {
 		})
 		c.Sample(6, map[string]interface{}{"cycle": labelsOf(cy.ops), "prefix": labelsOf(cy.prefix), "length": cy.k, "orders": len(orders)})
 	}
+	c12SharedProcessor(c)
+	c.Floor("cycles_resolved_with_nested_resolutions_on_the_same_processor", 30)
 	c.Floor("cycles_after_a_legitimate_prefix", 50)
 	c.Floor("cycles_closed_by_unpublished_operations", 50)
 	c.Floor("cycles_with_a_legitimate_competitor_of_the_closing_operation", 50)
